@@ -312,6 +312,28 @@ func (g *gen) ref(kind, file string, depth int, noSelf bool) M {
 				}
 			}
 		}
+		if kind == "schema" && len(g.allDocs) > 1 && g.chance(4, "deepbody") {
+			// a pointer to the schema inside a request body / a response of another document; the two
+			// components have the same name, so the two pointers differ in the section only
+			tf := g.pickOtherDoc(file)
+			if tf != file {
+				for _, k := range []string{"requestBody", "response"} {
+					m := g.comps(tf, k)
+					if m["NB"] == nil {
+						o := M{"x-vid": g.newID(k, tf), "content": M{"application/json": M{"schema": g.leaf("schema", tf)}}}
+						if k == "response" {
+							o["description"] = "d"
+						}
+						m["NB"] = o
+					}
+				}
+				sect := rapid.SampledFrom([]string{"requestBodies", "responses"}).Draw(g.t, "deepbodysect")
+				g.feat["form:deep-pointer"]++
+				g.feat["deep:into-"+sect]++
+				g.feat["external"]++
+				return M{"$ref": g.relSpelling(file, tf) + "#/components/" + sect + "/NB/content/application~1json/schema"}
+			}
+		}
 		tf := g.pickDoc(file)
 		var ptr string
 		switch kind {
